@@ -43,7 +43,7 @@ def gen_lines(ctx):
         L.append("rwl %d %s" % (rng.choice(EDGE_CODES + [rng.randrange(256)]), ",".join(ents)))
     for c in ([69, 132, 160, 65, 128, 165] if not thorough else EDGE_CODES):
         for v in ("2", "8", "16", "26", "10"):
-            for x in ("x2049", "x292,65000", "x11,2053", "m3", "m3,15", "m15,17"):
+            for x in ("x2049", "x292,65000", "x11,2053", "m3", "m3,15", "m15,17", "b17", "b7,12", "b14,60"):
                 L.append("srv udp con %s %d %s" % (v, c, x))
                 L.append("srv udp non %s %d %s" % (v, c, x))
                 L.append("srv tcp non %s %d %s" % (v, c, x))
@@ -73,6 +73,9 @@ def gen_lines(ctx):
             L.append("srvmux tcp non %s %d" % (v, c))
             L.append("srvmw udp %s %s %d" % (rng.choice(["con", "non"]), v, c))
             L.append("srvmw tcp non %s %d" % (v, c))
+            #  srvbw: block-wise enabled, the request is a GET that asks for the size of the representation (Size2: 0)
+            L.append("srvbw udp %s %s %d" % (rng.choice(["con", "non"]), v, c))
+            L.append("srvbw tcp non %s %d" % (v, c))
     return L
 
 
@@ -81,7 +84,7 @@ def dl(l):
     f = l.split()
     if f[0] == "srvreal":
         return "srv udp %s %s %s" % (f[2], f[3], f[4])
-    if f[0] == "srvmux":
+    if f[0] in ("srvmux", "srvbw"):
         return "srv %s %s %s %s" % (f[1], f[2], f[3], f[4])
     if f[0] == "srvmw":
         return "is %s %s" % (f[4], f[3] if f[3] != "-" else "0")   # no option = nothing suppressed = value 0
